@@ -1,7 +1,13 @@
 package props
 
 import (
+	"encoding/json"
+	"fmt"
+	"reflect"
+	"strings"
 	"testing"
+
+	ap "github.com/go-ap/activitypub"
 
 	"pgregory.net/rapid"
 	"verif/harness/ev"
@@ -24,10 +30,108 @@ func TestC01(t *testing.T) {
 	r.Rule("cells: every struct type x field x admissible shape with id, type and that one field set (complete at depth 1), both entry pairs " +
 		"(package MarshalJSON/UnmarshalJSON and <T>.MarshalJSON/(*T).UnmarshalJSON); everything: one value per type with every field set; " +
 		"random: random field subsets with random shapes nested to the depth bound. Oracle: Diff(x, decode(encode(x))) under the JSON normal form + same concrete Go type. " +
+		"helpers: the values an actor's endpoints and publicKey, language lists and IRI lists are made of, written and read back on their own through their MarshalJSON/UnmarshalJSON pair and through encoding/json " +
+		"(Source is left out: its UnmarshalJSON reads the source member of the enclosing document; IRI and MimeType only with text that needs no JSON escape: their UnmarshalJSON takes text as it stands). " +
 		"non-trivial = at least one property besides id and type is set on the root; distinct by canonical reflection dump of the value + entry pair")
 	r.Assume("durations are whole seconds with |d| < 27 days (the xsd duration dependency mis-formats longer ones); floats are n/64 (exact in the writer's %f)")
 	r.Assume("IRIs are absolute URLs, ids within one value are pairwise non-equivalent, multi-language maps use distinct real tags")
 	runRoundTrips(t, r, "json-rt", []codec{codecJSONPkg, codecJSONTyped}, false, r.Pick(4000, 25000))
+
+	// ---- helper types with their own MarshalJSON/UnmarshalJSON pair (the values an actor's endpoints and publicKey, an object's
+	// source, an IRI list ... are made of), stored and read back on their own: through the method pair and through encoding/json ----
+	if r.WantLayer("helpers", true) {
+		total, done := 0, 0
+		for _, h := range c01Helpers() {
+			for vi, v := range h.values {
+				for _, pair := range []string{"methods", "encoding/json"} {
+					total++
+					cell := fmt.Sprintf("%s #%d %s", h.name, vi, pair)
+					if !r.WantCell(cell) {
+						continue
+					}
+					done++
+					key, detail := c01HelperRoundTrip(h.name, v, pair)
+					r.Case(cell+" "+vocab.Dump(v), !reflect.ValueOf(v).IsZero(), "helpers "+h.name, "helpers pair="+pair)
+					if done%11 == 0 {
+						r.Sample(cell, map[string]interface{}{"layer": "helpers", "type": h.name, "pair": pair, "value": vocab.Dump(v)})
+					}
+					if key != "" {
+						r.Report("helpers", cell, key, detail, map[string]interface{}{"type": h.name, "pair": pair, "value": vocab.Dump(v)})
+					}
+				}
+			}
+		}
+		r.Cells(total, done)
+		r.Exhaustive("helpers", !r.Replaying())
+	}
+}
+
+func c01Helpers() []c03Helper {
+	var iris, mimes, nlvs, irisL, eps, pks []interface{}
+	// IRI and MimeType: their UnmarshalJSON takes the text as it stands (callers hand it already-decoded bytes, iri_test.go hands it unquoted
+	// text), so only values whose JSON string form needs no escape are in this layer's domain, and encoding/json's HTML escaping of & is not
+	for _, t := range []string{"https://example.com/a", "https://example.com/a?x=1#f", "https://example.com/ü/%20", "https://[::1]:8080/x"} {
+		iris = append(iris, ap.IRI(t))
+	}
+	for _, t := range []string{"text/html", "text/html; charset=utf-8", "application/ld+json"} {
+		mimes = append(mimes, ap.MimeType(t))
+	}
+	for _, t := range []string{"plain", "two words", "üñí €", "quo\"te", "back\\slash", "line\nbreak", "<b>html</b>", " lead and trail ", "{\"a\":1}"} {
+		nlvs = append(nlvs, ap.NaturalLanguageValues{{Ref: ap.NilLangRef, Value: ap.Content(t)}},
+			ap.NaturalLanguageValues{{Ref: "en", Value: ap.Content(t)}, {Ref: "fr", Value: ap.Content("autre " + t)}})
+	}
+	irisL = append(irisL, ap.IRIs{"https://example.com/1", "https://example.com/2"}, ap.IRIs{"https://example.com/1", "https://example.com/2", "https://example.com/1?x=1"})
+	one := func(f string) ap.Endpoints {
+		e := ap.Endpoints{}
+		reflect.ValueOf(&e).Elem().FieldByName(f).Set(reflect.ValueOf(ap.IRI("https://example.com/endpoint/" + f)))
+		return e
+	}
+	et := reflect.TypeOf(ap.Endpoints{})
+	all := ap.Endpoints{}
+	for i := 0; i < et.NumField(); i++ {
+		eps = append(eps, one(et.Field(i).Name))
+		reflect.ValueOf(&all).Elem().Field(i).Set(reflect.ValueOf(ap.IRI("https://example.com/endpoint/all/" + et.Field(i).Name)))
+	}
+	eps = append(eps, all)
+	pks = append(pks, ap.PublicKey{ID: "https://example.com/a#main-key", Owner: "https://example.com/a", PublicKeyPem: "-----BEGIN PUBLIC KEY-----\nMIIB\n-----END PUBLIC KEY-----"},
+		ap.PublicKey{ID: "https://example.com/k"}, ap.PublicKey{ID: "https://example.com/k", Owner: "https://example.com/o"}, ap.PublicKey{ID: "https://example.com/k", PublicKeyPem: "pem"})
+	return []c03Helper{{"IRI", iris}, {"MimeType", mimes}, {"NaturalLanguageValues", nlvs}, {"IRIs", irisL}, {"Endpoints", eps}, {"PublicKey", pks}}
+}
+
+// c01HelperRoundTrip writes v through one entry pair and compares what is read back under the JSON normal form
+// (unset == empty; a lone language-tagged string is outside the helper values used here).
+func c01HelperRoundTrip(name string, v interface{}, pair string) (key, detail string) {
+	fresh := reflect.New(reflect.TypeOf(v))
+	var err error
+	var b []byte
+	stage := "encode"
+	pi := evSafe(func() {
+		switch pair {
+		case "methods":
+			b, err = v.(json.Marshaler).MarshalJSON()
+			if err == nil {
+				stage = "decode"
+				err = fresh.Interface().(json.Unmarshaler).UnmarshalJSON(b)
+			}
+		case "encoding/json":
+			b, err = json.Marshal(v)
+			if err == nil {
+				stage = "decode"
+				err = json.Unmarshal(b, fresh.Interface())
+			}
+		}
+	})
+	if pi != nil {
+		return fmt.Sprintf("json-helper %s %s panic@%s", name, pair, pi.Frame), pi.Value
+	}
+	if err != nil {
+		return fmt.Sprintf("json-helper %s %s %s-error", name, pair, stage), fmt.Sprintf("%s of %s: %v (bytes %q)", stage, vocab.Dump(v), err, b)
+	}
+	got := fresh.Elem().Interface()
+	if d := vocab.ContentDiff(c03NormEmpty(v), c03NormEmpty(got)); len(d) > 0 {
+		return fmt.Sprintf("json-helper %s %s differs", name, pair), fmt.Sprintf("wrote %s as %s, read back %s: %s", vocab.Dump(v), b, vocab.Dump(got), strings.Join(d, "; "))
+	}
+	return "", ""
 }
 
 // runRoundTrips is the body shared by C01 (JSON) and C03 (gob): cells, everything and random layers.
